@@ -41,7 +41,9 @@ fn main() {
             "C05" => vh::c05::replay(&ctx, &w),
             "C06" => vh::c06::replay(&ctx, &w),
             "C07" => vh::c07::replay(&ctx, &w),
+            "C13" => vh::c13::replay(&ctx, &w),
             "C14" => vh::c14::replay(&ctx, &w),
+            "C15" => vh::c15::replay(&ctx, &w),
             "C17" => vh::c17::replay(&ctx, &w),
             _ => {
                 eprintln!("no replay for {}", id);
@@ -57,7 +59,9 @@ fn main() {
             "C05" => vh::c05::main(&ctx),
             "C06" => vh::c06::main(&ctx),
             "C07" => vh::c07::main(&ctx),
+            "C13" => vh::c13::main(&ctx),
             "C14" => vh::c14::main(&ctx),
+            "C15" => vh::c15::main(&ctx),
             "C17" => vh::c17::main(&ctx),
             _ => {
                 eprintln!("unknown property {}", id);
